@@ -17,16 +17,34 @@ objs=""; for b in $T/debug/*; do [ -f "$b" ] && [ -x "$b" ] && objs="$objs -obje
 $LLVM/llvm-cov report $objs -instr-profile=$C/all.profdata --ignore-filename-regex='(\.cargo|rustc|verif/harness)' > $C/report.txt 2>/dev/null
 $LLVM/llvm-cov export $objs -instr-profile=$C/all.profdata --ignore-filename-regex='(\.cargo|rustc|verif/harness)' -format=lcov > $C/all.lcov 2>/dev/null
 python3 - <<'PY'
-import re,collections
-fn=collections.defaultdict(dict); cur=None
+import collections
+da=collections.defaultdict(dict); cur=None
 for l in open('/dev/shm/cov/all.lcov'):
     l=l.strip()
     if l.startswith('SF:'): cur=l[3:]
-    elif l.startswith('FNDA:'):
-        n,name=l[5:].split(',',1); fn[cur][name]=fn[cur].get(name,0)+int(n)
+    elif l.startswith('DA:'):
+        n,c=l[3:].split(',')[:2]; da[cur][int(n)]=max(da[cur].get(int(n),0),int(c))
 out=open('/dev/shm/cov/uncovered.txt','w')
-for f in sorted(fn):
-    un=[n for n,c in fn[f].items() if c==0]
-    if un: out.write(f"{f}: {len(un)}/{len(fn[f])} functions never executed\n" + "".join(f"    {n}\n" for n in un))
+tot=cov=0
+for f in sorted(da):
+    if not f.startswith('/repo/'): continue
+    src=open(f).read().splitlines()
+    # skip the files' own unit tests
+    cut=next((i for i,l in enumerate(src) if l.startswith('#[cfg(test)]')), len(src))
+    lines={n:c for n,c in da[f].items() if n<=cut}
+    un=sorted(n for n,c in lines.items() if c==0)
+    tot+=len(lines); cov+=len(lines)-len(un)
+    out.write(f"== {f}: {len(un)} of {len(lines)} executable lines never executed\n")
+    # ranges
+    k=0
+    while k<len(un):
+        a=un[k]; b=a
+        while k+1<len(un) and un[k+1]<=b+2: k+=1; b=un[k]
+        k+=1
+        for n in range(a,b+1):
+            out.write(f"   {n:4d}  {src[n-1][:150]}\n")
+        out.write("   ----\n")
+out.write(f"TOTAL (non-test lines of /repo): {cov}/{tot}\n")
+print(f"covered {cov}/{tot} non-test executable lines of /repo")
 PY
 tail -3 $C/report.txt
